@@ -299,7 +299,9 @@ static void ProcessFile(char const* FileName, LongWord Offset) {
                     ChkIO(FileName);
                 }
 
-                GroupLineLen = LineLen;
+                /* a line holds a whole number of addressable units */
+
+                GroupLineLen = (LineLen > Gran) ? LineLen - (LineLen % Gran) : Gran;
 
                 /* relative Angaben ? */
 
@@ -349,6 +351,7 @@ static void ProcessFile(char const* FileName, LongWord Offset) {
 
                     if (GroupLineLen > ((252u - MotRecType) & ~1u)) {
                         GroupLineLen = (252u - MotRecType) & ~1u;
+                        GroupLineLen -= GroupLineLen % Gran;
                     }
 
                     /* Statistik, Anzahl Datenzeilen ausrechnen */
